@@ -3,7 +3,7 @@ SPEC = dict(
     model="C01",
     rule="real programs through DeBlobProgramCode + Host.HostCall (block engine, logging host-call table incl. the node's gas call) "
          "against the extracted Gray Paper machine: (a) exhaustive opcode 0..255 x skip 0..24 x position {start, mid-block, last bytes of "
-         "code} x operand-byte pairs from a boundary set (quick 9 pairs, thorough 256) with boundary-biased registers; (b) random "
+         "code} x operand-byte pairs from a boundary set (quick 9 pairs, thorough 64) with boundary-biased registers; (b) random "
          "instruction streams with random bitmasks / jump tables / entry points / undefined opcodes / unterminated last block; "
          "(c) structured programs (branches to block starts, jump-table jumps, loops, ecalli, halting); (d) load/store and sbrk programs "
          "over maps mixing RW / RO / present-inaccessible / absent pages around 2^16, page edges and 2^32. Compared: exit kind, fault "
